@@ -1228,6 +1228,7 @@ func runC02() {
 				Want: "unoptimized: " + c02Show(r0), Got: "optimized: " + c02Show(r1), Replay: replayArg(ei)})
 		}
 	}
+	c02Round7(rep, sample, envs)
 	// an operand of a DECLARED integer type (type C03MyInt int; environment type of the C03 vertical): the rewrites
 	// that test `Kind() == reflect.Int` fire although the run-time helpers work on the dynamic type
 	for _, src := range []string{"M in [1, 2]", "M not in [1, 2]", "M in 1..3", "M not in 1..3", "N in [2]", "[M][0] in 1..3", "M == 1", "(B ? nil : 1) in [1, 2]", "(B ? 1 : nil) in 1..3",
